@@ -52,6 +52,10 @@ def _oracle_run(ops):
             got2 = core.call(ba.__getitem__, idx)
             if got2 != got:
                 return f"step {step} {op}: check_bit {got} but __getitem__ {got2}"
+            got3 = core.call(ba.is_bit_set, idx)
+            want3 = ("ok", bool(exp[1])) if exp[0] == "ok" else exp
+            if got3 != want3:
+                return f"step {step} {op}: is_bit_set gave {got3}, expected {want3}"
         elif kind == "clear":
             got = core.call(ba.clear)
             ref = [0] * size
